@@ -406,23 +406,11 @@ func (w *World) groundGuardedAccess(verified map[string]bool) (fc *FuncCtx) {
 				}
 				key := obj.FullName()
 				goal := "false"
-				if verified[key] {
+				if verified[key] || w.verifiedInPlace(key, verified, map[string]bool{}) {
 					goal = "true"
 				}
-				if c := w.Contracts[key]; c != nil && c.Opts["testonly"] != "" {
-					// exempt only if no non-test code refers to the function
-					used := false
-					for _, q := range w.Pkgs {
-						for id, o := range q.TypesInfo.Uses {
-							if o == obj {
-								_ = id
-								used = true
-							}
-						}
-					}
-					if !used {
-						goal = "true"
-					}
+				if w.testOnlyExempt(key, map[string]bool{}) {
+					goal = "true"
 				}
 				fc.obligeAt(st, "ground.guarded", shortKey(key), goal, shortPath(w.Fset.Position(fd.Pos()).String()), fmt.Sprintf("%s touches a lock-protected template map %d time(s): it must be verified under the lock contracts", shortKey(key), n))
 			}
@@ -558,4 +546,39 @@ func fnvQuery(n int) string {
 	b.WriteString("(assert (or " + strings.Join(diff, " ") + "))\n")
 	b.WriteString("(assert (= " + h1 + " " + h2 + "))\n(check-sat)\n")
 	return b.String()
+}
+
+// testOnlyExempt: the function is declared `opt testonly` and no non-test code refers to it, or it has no
+// contract and is called only by such functions.
+func (w *World) testOnlyExempt(key string, seen map[string]bool) bool {
+	if seen[key] {
+		return false
+	}
+	seen[key] = true
+	obj := w.FuncObj[key]
+	if obj == nil {
+		return false
+	}
+	if c := w.Contracts[key]; c != nil {
+		if c.Opts["testonly"] == "" {
+			return false
+		}
+		for _, q := range w.Pkgs {
+			for _, o := range q.TypesInfo.Uses {
+				if o == obj {
+					return false
+				}
+			}
+		}
+		return true
+	}
+	if !w.isCalledHelper(key) {
+		return false
+	}
+	for _, c := range w.callers[key] {
+		if !w.testOnlyExempt(c, seen) {
+			return false
+		}
+	}
+	return len(w.callers[key]) > 0
 }
